@@ -440,8 +440,9 @@ void SGal3TangentBase<_Derived>::fillE(
 
   E.noalias() = I(Scalar(0.5), Scalar(0.5), Scalar(0.5)).toDenseMatrix();
 
-  // small angle approx.
+  // small angle approx. (first order: A -> 1/6)
   if (theta_sq < Constants<Scalar>::eps) {
+    E.noalias() += so3.hat() / Scalar(6);
     return;
   }
 
